@@ -222,11 +222,13 @@ func allocChild(run *vk.Run) {
 		}
 		emit(sum)
 	}
-	// client path (no limiting reader): claims that no 64-bit platform can allocate (> 2^48) or that
-	// overflow int — the only legal outcomes are an error or a panic, never a real allocation — unless the
-	// length is truncated to fewer bits, which the escalation above would have shown.
+	// client path (no limiting reader, so no allocation bound is asserted; only "never panics").
+	// Two claims whose 32-bit halves are small, so that an implementation that truncates the
+	// length does not really allocate much: 0x0001000100000010 (> 2^48: more than any 64-bit Go
+	// heap can hold, make() panics instead of allocating) and 0x8000000100000010 (negative as int).
+	// Run only when the limited path showed that claims are bounded.
 	if !anyViolated {
-		for _, claimed := range []uint64{1 << 60, 1 << 62, 1<<63 - 1, 1 << 63, 1<<63 + 1, 0xFFFFFFFF00000000, 0xFFFFFFFFFFFFFFFF} {
+		for _, claimed := range []uint64{0x0001000100000010, 0x8000000100000010} {
 			for _, kind := range []string{"text", "binary"} {
 				stream := append(wtHeader(claimed, kind == "binary"), tail...)
 				i++
@@ -437,6 +439,10 @@ func checkAlloc(run *vk.Run, rp *rep, smp *sampler) {
 		}
 		if open == nil && len(recs) == 0 {
 			run.Inconclusive("allocation probes: child left no journal: " + head)
+		} else if open != nil && open.Delivery == "raw-path" && kind == "out-of-memory" {
+			// no limit is configured on the client path: running out of the child's 8 GiB address-space cap is outside the property
+			keep = true
+			run.Inconclusive("client-path probe ran out of memory under the child's address-space cap (no limit is configured on that path): " + what)
 		} else {
 			rp.viol("alloc-child-crash", map[string]any{"kind": kind}, what, witness)
 		}
